@@ -21,6 +21,7 @@ NOT_COVERED = [
     "the numerics of biweight_location / biweight_midvariance: they are spies returning fresh values, what is decided is the exact vector each bin hands to them (their own invariants: C19)",
     "corrections on (the semantic clauses under rolling-median corrections), the sex inference itself (guess_xx: scipy median_test; its answer is solver-chosen), clustering",
     "cohorts of more than 3 samples",
+    "the depth-only 'consequently' clause for a cohort of ONE sample: the estimators of {pseudo-sample 0, v} give v/2 with spread 0.74|v| -- the defining clause (biweight over the samples plus the pseudo-sample) holds and is what the code does, the derived clause does not follow from it for n = 1 and is claimed for n >= 2 (consensus_outlier, family depth_only)",
 ]
 STUBS = [
     "reference.read_cna returns the harness's in-memory arrays (file parsing: C08)",
@@ -52,7 +53,7 @@ class Spy:
         return self.ctx.real(f"{self.name}{len(self.calls)}", self.lo, None)
 
 
-def h_pool(ctx, sexes, hapx, naming, with_anti, mismatch=False, anti_lo=-10):
+def h_pool(ctx, sexes, hapx, naming, with_anti, mismatch=False, anti_lo=-10, reverse_targets=False):
     """sexes: list of 'F'/'M' per sample.  anti_lo: lower end of the antitarget log2 range (below
     -15 a bin counts as null coverage: antitarget files are centred over all their autosomal bins,
     zero-coverage ones included -- 'each sample's log2 after median-centring')."""
@@ -78,7 +79,7 @@ def h_pool(ctx, sexes, hapx, naming, with_anti, mismatch=False, anti_lo=-10):
     raised = None
     try:
         ref = reference.combine_probes(
-            [f"s{k}.targetcoverage.cnn" for k in range(ns)],
+            [f"s{k}.targetcoverage.cnn" for k in (reversed(range(ns)) if reverse_targets else range(ns))],
             [f"s{k}.antitargetcoverage.cnn" for k in range(ns)] if with_anti else None,
             None, hapx, None, sex_map, False, False, False, False, 4,
         )
@@ -205,16 +206,26 @@ def h_infer(ctx, with_anti, empty_anti=False):
     ctx.cover("reached")
 
 
-def h_consensus(ctx, n, side):
-    """summarize_info with the real estimators on one structured family where the degree stays low
-    enough for the solver (as in C19): in a bin where every sample agrees with the neutral
-    pseudo-sample except one that lies far away, Tukey's biweight discards the outlier -- log2 is
-    the common value and spread 0, on either side."""
+def h_consensus(ctx, n, side, family="outlier"):
+    """summarize_info with the real estimators on structured families where the degree stays low
+    enough for the solver (as in C19).  'outlier': in a bin where every sample agrees with the
+    neutral pseudo-sample except one that lies far away, Tukey's biweight discards the outlier --
+    log2 is the common value and spread 0, on either side.  'depth_only': n - 1 >= 2 normals that
+    agree after centring (they differ only in depth) at a level v away from the pseudo-sample's 0
+    reproduce v with spread 0 (for a single normal the estimators of {0, v} give v/2: the
+    'consequently' clause of the statement does not follow from its defining clause there, and is
+    not claimed)."""
     y = ctx.real("y", -10, 10)
-    ctx.assume(y <= -1 if side == "low" else y >= 1)
-    pos = ctx.choice("row", list(range(1, n)))
-    col0 = [0.0] * n
-    col0[pos] = y
+    if family == "outlier":
+        ctx.assume(y <= -1 if side == "low" else y >= 1)
+        pos = ctx.choice("row", list(range(1, n)))
+        col0 = [0.0] * n
+        col0[pos] = y
+        want = 0.0
+    else:
+        ctx.assume(y <= -0.05 if side == "low" else y >= 0.05)
+        col0 = [0.0] + [y] * (n - 1)
+        want = y
     logr = np.empty((n, 2), dtype=object)
     for i in range(n):
         logr[i, 0] = col0[i]
@@ -223,8 +234,12 @@ def h_consensus(ctx, n, side):
     out = reference.summarize_info(logr, depths)
     l2, sp = out["log2"][0], out["spread"][0]
     ctx.observe("log2", l2)
-    ctx.claim(approx(l2, 0), "the consensus log2 discards a far outlier (Tukey's biweight location)")
-    ctx.claim(approx(sp, 0), "the spread discards a far outlier, low or high (Tukey's biweight midvariance)")
+    if family == "outlier":
+        ctx.claim(approx(l2, want), "the consensus log2 discards a far outlier (Tukey's biweight location)")
+        ctx.claim(approx(sp, 0), "the spread discards a far outlier, low or high (Tukey's biweight midvariance)")
+    else:
+        ctx.claim(approx(l2, want), "normals that agree after centring reproduce their common level")
+        ctx.claim(approx(sp, 0), "normals that agree after centring have spread 0")
     ctx.cover("reached")
 
 
@@ -317,6 +332,8 @@ def _pool_cfgs():
                     out.append(c)
     out.append({"sexes": ["F", "M"], "hapx": True, "naming": "chr", "with_anti": False, "mismatch": True})
     out.append({"sexes": ["F"], "hapx": False, "naming": "chr", "with_anti": True, "anti_lo": -25})
+    # the target files listed in another order than the antitarget files: each sample's columns still pair up
+    out.append({"sexes": ["M", "F"], "hapx": False, "naming": "chr", "with_anti": True, "reverse_targets": True})
     out.append({"sexes": ["M", "F"], "hapx": True, "naming": "chr", "with_anti": True, "anti_lo": -25, "tier": "thorough"})
     return out
 
@@ -324,7 +341,7 @@ def _pool_cfgs():
 HARNESSES = [
     Harness("pooled", h_pool, _pool_cfgs(), covers=["reached", "mixed sexes", "rejected", "null-coverage antitarget bin"], wall_s=400, thorough_wall_s=1800),
     Harness("inferred_sexes", h_infer, [{"with_anti": True}, {"with_anti": False}, {"with_anti": True, "empty_anti": True}], covers=["reached", "antitarget call only", "calls disagree"], wall_s=300),
-    Harness("consensus_outlier", h_consensus, [{"n": n, "side": sd} for n in (3, 4) for sd in ("low", "high")], covers=["reached"], wall_s=300, query_timeout_ms=60000),
+    Harness("consensus_outlier", h_consensus, [{"n": n, "side": sd} for n in (3, 4) for sd in ("low", "high")] + [{"n": n, "side": sd, "family": "depth_only"} for n in (3, 4) for sd in ("low", "high")], covers=["reached"], wall_s=300, query_timeout_ms=60000),
     Harness("gc_rmask", h_gc, [{"L": 0}, {"L": 1}, {"L": 3}, {"L": 4}, {"L": 6, "tier": "thorough"}], covers=["all ambiguous", "mixed case"], wall_s=200, thorough_wall_s=900),
     Harness("fasta_slice", h_slice, [{}], covers=["reached"]),
 ]
